@@ -88,6 +88,7 @@ def gen_cases(tier, seed):
                         "chunk": chunk if rnd.random() < 0.7 else rnd.choice([1, 2, 4]),
                         "triple": [rnd.randint(0, 3), rnd.randint(0, 3), rnd.randint(0, 4)]})
         cases.append({"kind": "dataset", "scales": scs, "pseed": rnd.randrange(2 ** 32)})
+    cases.append({"kind": "repo_tests"})
     return cases
 
 
@@ -337,7 +338,34 @@ def run_dataset(case):
             "sample": {"kind": "dataset", "scales": case["scales"]}}
 
 
+def _repo_tests(prop_obs_key):
+    """The repository's own unit tests as one more workload for the contracts (child process,
+    contracts attached through sitecustomize)."""
+    import os
+    import tempfile
+
+    from harness import cli
+    fd, report = tempfile.mkstemp(prefix="repotests-", suffix=".jsonl")
+    os.close(fd)
+    try:
+        rc, summary, broken = cli.run_repo_tests(report)
+        rep = cli.read_report(report)
+    finally:
+        os.unlink(report)
+    obs = {"repo_test_runs_under_contracts": 1,
+           "repo_tests_contract_evaluations": rep["child_contract_evaluations"],
+           "repo_tests_summary": [summary[:100]]}
+    v = []
+    if broken:
+        v.append({"kind": "contract-broken-while-the-repository's-own-tests-ran",
+                  "detail": " | ".join(b[:200] for b in broken)})
+    return {"violations": v, "obs": obs, "evals": 1, "sigs": [],
+            "sample": {"kind": "repo_tests", "summary": summary[:100]}}
+
+
 def run_case(case):
+    if case.get("kind") == "repo_tests":
+        return _repo_tests("c09")
     if case["kind"] == "dataset":
         return run_dataset(case)
     return run_grid(case) if case["kind"] == "grid" else run_route(case)
@@ -356,6 +384,8 @@ def gates(obs, tier):
         "cubic_grids_beyond_1024_per_axis": obs.get("equal_bits_beyond_10_per_axis", 0) > 0,
         "totals_beyond_64_bits": obs.get("total_bits_over_64", 0) > 0,
         "shard_bits_not_multiple_of_4": obs.get("shard_bits_not_multiple_of_4", 0) > 0,
+        "routing_contracts_evaluated_under_the_repository_tests": obs.get(
+            "repo_tests_contract_evaluations", {}).get("get_shard_key", 0) > 0,
         "multi_scale_datasets_written_through_the_accessor": obs.get(
             "dataset_shard_files", 0) > 100,
     }
